@@ -92,6 +92,39 @@ def closure_fold(prog, fn):
     return out
 
 
+def early_exits(fn, te, h, l, op, name):
+    """a fold over `and` / `or` may stop early only when the accumulator has reached the operation's absorbing
+    element (false for and, true for or): any other test on the accumulator that leaves the loop drops operands"""
+    out = []
+    cfg = fn.cfg
+    body = cfg.loop_headers.get(h, set())
+    k = 0
+    for b in sorted(body):
+        t = fn.blocks[b]["term"]
+        if t["k"] != "switch" or b not in te.switch_term:
+            continue
+        c = strip(te.switch_term[b][0])
+        if not (mir.is_call(c, "is_true") or mir.is_call(c, "is_false")):
+            continue
+        arg = strip(c[2][-1])
+        touches = any(x == ("mu", h, l) for x in mir.subterms(arg)) or \
+            (arg[0] == "call" and arg[1].name == op)
+        if not touches:
+            continue
+        for val, tgt in [(v, x) for v, x in t["targets"]] + [("else", t["otherwise"])]:
+            if tgt in body or fn.blocks[tgt]["term"]["k"] == "unreachable":
+                continue
+            holds = (val == "else") if any(v == "0" for v, _ in t["targets"]) else (val != "0")
+            tested = "true" if (c[1].name == "is_true") == holds else "false"
+            k += 1
+            ok = tested == ANNIH[op]
+            out.append(inst("FS", "%s:%s<-%s:early-exit#%d" % (fn.npath, name, op, k), OK if ok else VIOLATION, fn, t.get("line"),
+                            "leaves the loop once `%s` is %s, the absorbing element of %s" % (name, tested, op) if ok else
+                            "the loop over `%s` is left as soon as `%s` is %s, but the absorbing element of %s is %s: the remaining "
+                            "operands are dropped although they can still change the result" % (op, name, tested, op, ANNIH[op])))
+    return out
+
+
 def run(prog):
     out = []
     n = 0
@@ -128,6 +161,8 @@ def run(prog):
                     continue
                 out.append(inst("FS", key, OK, fn, None, "seeded from a value (%s), not from a constant" % show(init)[:60]))
                 continue
+            if op in ("and", "or"):
+                out += early_exits(fn, te, h, l, op, name)
             if ck == ANNIH[op] or ck != IDENT[op]:
                 out.append(inst("FS", key, VIOLATION, fn, None,
                                 "accumulator `%s` is combined with %s but seeded with %s (the identity of %s is %s): "
